@@ -55,6 +55,15 @@ check("C04", "differential property test: compile-time value (singleton type) vs
       "`**` only with integer bases and exponents 0-5 (a transcendental float pow has no exact reference); no compile-time value or an ordinary diagnostic counts as 'left to run time / reported'.",
       "DESIGN.md §3 C04")
 
+check("C01", "differential property test: generated typed programs, compiled bytecode vs an independently printed Python program",
+      "Programs are built by construction from a proptest choice tape over a typed fragment grammar (bindings, arithmetic incl. // % ** and mixed Float/Int, strings, interpolation, lists, if, functions with default/keyword arguments, lambdas, for!/while!, pattern definitions, assert, exit; literals up to 2**64-1, -2**31, signed zeros, non-ASCII). Every bound variable is printed. The bytecode compiled in-process (3.11, default optimisation) and the reference Python program must produce the same stdout bytes, exception type and exit status; mismatches are confirmed in fresh interpreter processes before being reported.",
+      "Speaks for the fragment only; measured acceptance by the checker ~95%. Constructs whose defect is a recorded known finding (abs of a Float; union/interval-typed operands of arithmetic) are left out by construction and counted as excluded:* classes; pinned explicit replays keep those findings visible.",
+      "DESIGN.md §3 C01")
+check("C12", "differential property test over configurations: the same generated program at opt_level 0-3",
+      "Fragment programs whose bindings are not printed automatically (unused private variables, functions, lambdas arise at random) plus effectful definitions (procedures, bindings initialised by procedure calls, by print! as a value, by printing blocks, by raising initialisers) are compiled at opt_level 0,1,2,3 and run; stdout bytes, exception type and exit status must equal level 0's (confirmed in fresh processes).",
+      "In-process compilation with cfg.opt_level; an unstable checker verdict between repeated compilations is left to C19.",
+      "DESIGN.md §3 C12")
+
 NOT_APPLICABLE = {}
 
 def main():
